@@ -490,10 +490,11 @@ def _ws_free_regex(old):
         if prev is not None:
             word_prev = prev.isalnum() or prev == '_'
             word_ch = ch.isalnum() or ch == '_'
+            # (a line comment counts as layout: a comment added inside a multi-line anchor does not lose it)
             if word_prev and word_ch:
-                out.append(r'\s+' if gap else '')
+                out.append(r'(?:\s|//[^\n]*\n)+' if gap else '')
             else:
-                out.append(r'\s*')
+                out.append(r'(?:\s|//[^\n]*\n)*')
         if ch in ')]}' and prev is not None and prev not in '([{,':
             out.append(r'(?:,\s*)?')     # rustfmt adds a trailing comma when it breaks an argument list over several lines
         out.append(re.escape(ch))
